@@ -4,7 +4,7 @@
 patch=$1
 git -C /repo apply --check $patch || { echo "patch does not apply"; exit 3; }
 git -C /repo apply $patch
-/verif/selfcheck.sh 2>&1 | grep -v "rc=0"
+VERIF_EVIDENCE_DIR=/tmp/seed-evidence VERIF_REPLAY_DIR=/tmp/seed-replay /verif/selfcheck.sh 2>&1 | grep -v "rc=0"
 for p in C01 C02 C03 C04 C05 C06 C07 C08 C09 C10 C11 C12 C13 C14 C15 C16 C17 C18 C19 C20; do :; done
 git -C /repo apply -R $patch
 git -C /repo status --short | head -3
